@@ -36,7 +36,7 @@ CLAIMS = {
             "process death only (os._exit); completed writes/renames are assumed durable; worker-side effects are outside",
             "DESIGN.md 5/C08"),
     "C17": ("model_checking",
-            "Runner.tla (queue, task wrappers, futures, managed list, stop) model-checked for exactly-once execution and delivery, clean stop and termination over all completion orders including failing tasks; its behaviours are replayed on the real aiorunner/future_list; the real scheduler() runs under a scripted executor for (workers, steps, restart point) combinations; step counting of Infretis.tla is replayed and validated by the trace specification; the unmodified scheduler() with a real process pool and real moves is run, SIGKILLed, restarted and continued with more steps, every history validated by TraceInfretis.tla.",
+            "Runner.tla (queue, task wrappers, futures, managed list, stop) model-checked for exactly-once execution and delivery, clean stop and termination over all completion orders including failing tasks; its behaviours are replayed on the real aiorunner/future_list; the real scheduler() runs under a scripted executor for (workers, steps, restart point) combinations; step counting of Infretis.tla is replayed and validated by the trace specification; the unmodified scheduler() with a real process pool and real moves is run, SIGKILLed, restarted and continued with more steps, every history validated by TraceInfretis.tla. The counting argument itself (never more jobs in flight than steps left, nothing in flight at the end, exactly steps - restart point submissions and deliveries) is an inductive invariant of ApaSteps.tla that Apalache discharges for symbolic worker count, step count and restart point; the weakening the code had before 7cc4d53 (OverIssue) is refuted by TLC and by Apalache in every run.",
             "for the exhaustive completion orders the process pool is replaced by a scripted executor; everything else of the runner and the scheduler runs unmodified",
             "DESIGN.md 5/C17"),
 }
